@@ -978,7 +978,16 @@ def run(ctx):
              "group_threshold": s.group_threshold, "group_count": s.group_count, "member_index": s.member_index,
              "member_threshold": s.member_threshold, "value": s.value}
         f.update(chg)
-        return S.Share(**f).mnemonic()
+        try:
+            return S.Share(**f).mnemonic()
+        except Exception as ex:
+            # every field is inside its SLIP39 range (indices 0..15, thresholds/counts 1..16): the constructor must take it
+            line = add("share_mnemonic", ["share_mnemonic", f["share_bit_length"], f["id"], f["exponent"], f["group_index"],
+                                          f["group_threshold"], f["group_count"], f["member_index"],
+                                          f["member_threshold"], f["value"]])
+            rec.violation("share_mnemonic", {"line": line}, REJECT, "a share mnemonic",
+                          note=f"Share(...) refused header fields that are all inside their SLIP39 ranges: {ex!r}"[:300])
+            return None
 
     crafted_sets = [s for s in sets if s["e"] == 0]
     rng.shuffle(crafted_sets)
@@ -1004,6 +1013,8 @@ def run(ctx):
         variants.append([reencode(m, exponent=1) for m in take])
         variants.append([reencode(m, id=(a["id"] + 1) % 32768) for m in take])
         for v in variants:
+            if any(x is None for x in v):
+                continue
             e_v = 1 if v and S.Share.parse(v[0]).exponent == 1 else 0
             add_recover("recover:crafted", v, pw, e_v)
         # ONE share of an otherwise sufficient set carries another id / exponent / threshold / count (same share
@@ -1024,6 +1035,8 @@ def run(ctx):
                 if chg.get("id") == a["id"]:
                     continue
                 chosen = [reencode(sh[i], **chg) if j == odd else sh[i] for j, i in enumerate(members)]
+                if any(x is None for x in chosen):
+                    continue
                 add_recover("recover:one_share_differs", chosen, pw, 0, reaches_decrypt=False)
                 preds.append((pk, dict(base, shares=chosen, want=REJECT, why=f"one share with another {what}")))
     # single 1-of-1 shares of other lengths: bytes_to_mnemonic accepts 128/160/192/224/256 bits only
